@@ -357,7 +357,9 @@ func spanFamilies() [][]spanCase {
 	}
 	for i := range af {
 		i := i
-		mk("event", "", func(s *tracetest.SpanStub) { s.Events = []tracesdk.Event{ev("", tBase, 0, af[i]), ev("Ünï ✓", tBase.Add(1), 3)} })
+		mk("event", "", func(s *tracetest.SpanStub) {
+			s.Events = []tracesdk.Event{ev("", tBase, 0, af[i]), ev("Ünï ✓", tBase.Add(1), 3)}
+		})
 	}
 	flush()
 	// links: 0..2 per span; ids, trace state, remote, flags, attributes, dropped counts
@@ -380,11 +382,15 @@ func spanFamilies() [][]spanCase {
 	}
 	for _, d := range counts {
 		d := d
-		mk("link", "", func(s *tracetest.SpanStub) { s.Links = []tracesdk.Link{ln(sctx(trace.TraceID{15: 7}, trace.SpanID{7: 7}, 0, "", false), d)} })
+		mk("link", "", func(s *tracetest.SpanStub) {
+			s.Links = []tracesdk.Link{ln(sctx(trace.TraceID{15: 7}, trace.SpanID{7: 7}, 0, "", false), d)}
+		})
 	}
 	for i := range af {
 		i := i
-		mk("link", "", func(s *tracetest.SpanStub) { s.Links = []tracesdk.Link{ln(sctx(trace.TraceID{15: 7}, trace.SpanID{7: 7}, 0, "", false), 0, af[i])} })
+		mk("link", "", func(s *tracetest.SpanStub) {
+			s.Links = []tracesdk.Link{ln(sctx(trace.TraceID{15: 7}, trace.SpanID{7: 7}, 0, "", false), 0, af[i])}
+		})
 	}
 	flush()
 	for _, st := range []string{"", "a=1", "a=1,b=2"} {
@@ -393,7 +399,9 @@ func spanFamilies() [][]spanCase {
 		if st == "" {
 			cl = "link without trace state"
 		}
-		mk("link.trace_state", cl, func(s *tracetest.SpanStub) { s.Links = []tracesdk.Link{ln(sctx(trace.TraceID{15: 7}, trace.SpanID{7: 7}, 0, st, false), 0)} })
+		mk("link.trace_state", cl, func(s *tracetest.SpanStub) {
+			s.Links = []tracesdk.Link{ln(sctx(trace.TraceID{15: 7}, trace.SpanID{7: 7}, 0, st, false), 0)}
+		})
 		mk("link.trace_state", cl, func(s *tracetest.SpanStub) {
 			s.Links = []tracesdk.Link{ln(sctx(trace.TraceID{15: 7}, trace.SpanID{7: 7}, 0, st, true), 0), ln(sctx(trace.TraceID{15: 8}, trace.SpanID{7: 8}, 1, "", false), 0)}
 		})
@@ -414,7 +422,9 @@ func spanFamilies() [][]spanCase {
 	// resource it would be the same resource under another URL, which is not judged)
 	mk("resource", "", func(s *tracetest.SpanStub) { s.Resource = resource.NewWithAttributes("https://example.test/only-url") })
 	fam[len(fam)-1].Solo = true
-	mk("scope", "", func(s *tracetest.SpanStub) { s.InstrumentationScope = instrumentation.Scope{SchemaURL: "https://example.test/only-url"} })
+	mk("scope", "", func(s *tracetest.SpanStub) {
+		s.InstrumentationScope = instrumentation.Scope{SchemaURL: "https://example.test/only-url"}
+	})
 	mk("scope", "", func(s *tracetest.SpanStub) { s.InstrumentationScope = instrumentation.Scope{Version: "only-version"} })
 	flush()
 	return fams
